@@ -182,6 +182,10 @@ structure QtClass where
   isWidget : Bool
   /-- property names `Class::get_property` resolves on this class (own and inherited) -/
   props : List String
+  /-- derives from QLayout resp. QAction (measured like `isWidget`; the three are mutually exclusive for the classes
+      the harness names; absent in old requests = false) -/
+  isLayout : Bool := false
+  isAction : Bool := false
 deriving DecidableEq, Repr, Inhabited
 
 structure Env where
@@ -279,6 +283,18 @@ def derivesWidget : List BaseItem → Bool
   | .err _ :: _ => false
   | .cls (.qt q) :: _ => q.isWidget
   | .cls (.comp _ _) :: rest => derivesWidget rest
+
+/-- `is_derived_from(X)` along the base list for any measured trait of the Qt class the walk ends in
+    (same shape as `derivesWidget`). -/
+def derivesQt (sel : QtClass → Bool) : List BaseItem → Bool
+  | [] => false
+  | .err _ :: _ => false
+  | .cls (.qt q) :: _ => sel q
+  | .cls (.comp _ _) :: rest => derivesQt sel rest
+
+/-- `is_derived_from(QLayout)` / `is_derived_from(QAction)` -/
+def derivesLayout (l : List BaseItem) : Bool := derivesQt (·.isLayout) l
+def derivesAction (l : List BaseItem) : Bool := derivesQt (·.isAction) l
 
 inductive PropLookup where
   | found
@@ -414,12 +430,23 @@ def bindingOf (n : NodeInfo) : List String × List Diag :=
     | .unknown => ([], [.unknownProperty n.cls.name p])
     | .failed e => ([], [.propertyResolutionFailed e])
 
-/-- `UiForm::build` (root) resp. `UiObject::build` (children): the class must derive from QWidget -/
+/-- `UiForm::build` (root): the class must derive from QWidget; `UiObject::build` (children): from QAction,
+    QLayout or QWidget (tested in that order; a component whose chain of root types ends in a layout class or in
+    QAction is a layout resp. an action) -/
 def classDiag (isRoot : Bool) (n : NodeInfo) : List Diag :=
-  if derivesWidget n.bases then []
-  else [if isRoot then .notQWidget n.cls.name else .notActionLayoutWidget n.cls.name]
+  if isRoot then
+    if derivesWidget n.bases then [] else [.notQWidget n.cls.name]
+  else
+    if derivesAction n.bases || derivesLayout n.bases || derivesWidget n.bases then []
+    else [.notActionLayoutWidget n.cls.name]
 
+/-- the root object: always written as `<widget class="…">` -/
 def widgetOf (n : NodeInfo) : Widget := { cls := n.cls.name, props := (bindingOf n).1 }
+
+/-- a child: `<widget class="…">` / `<layout class="…">` under its class name; an action is written as a plain
+    `<action>` without class — uic makes it a QAction, and that is the class the harness reports for it -/
+def kidWidgetOf (n : NodeInfo) : Widget :=
+  { cls := if derivesAction n.bases then "QAction" else n.cls.name, props := (bindingOf n).1 }
 
 /-- `uigen::build` on a document of the generated shape; `none` = out of fuel in a base-class walk. -/
 def translate (env : Env) (t : Tree) (look : Path → Option Module) (base : Path) (f : File) : Option Output :=
@@ -437,7 +464,7 @@ def translate (env : Env) (t : Tree) (look : Path → Option Module) (base : Pat
              -- module space; object tree; code maps in flat order (children, root); form (root, children)
              diags := sp.2 ++ d1 ++ (kids.flatMap fun n => (bindingOf n).2) ++ (bindingOf root).2
                         ++ classDiag true root ++ kids.flatMap (classDiag false),
-             widgets := widgetOf root :: kids.map widgetOf,
+             widgets := widgetOf root :: kids.map kidWidgetOf,
              customs := customWidgets env look (nodesOf env look sp.1 f rootCls) }
     | _, _ => none
 
